@@ -4,6 +4,7 @@ patch=$1; shift
 cd /repo || exit 2
 if ! git diff --quiet; then echo "repo dirty"; exit 2; fi
 git apply "$patch" || { echo "patch does not apply"; exit 2; }
+mkdir -p /tmp/gcv_seed_scratch; cp /verif/known_findings.json /tmp/gcv_seed_scratch/ 2>/dev/null
 for p in "$@"; do
   out=$(GCV_VERIF=/tmp/gcv_seed_scratch /verif/bin/gcv -p $p 2>&1)
   echo "$out" | grep -A1 "^VIOLATION" | grep "rule" | cut -c1-260 | head -8
